@@ -159,6 +159,10 @@ class BuildSystem():
             self.box_grid = np.mgrid[0:self.box[0]:self.grid_spacing,
                                      0:self.box[1]:self.grid_spacing,
                                      0:self.box[2]:self.grid_spacing].reshape(3, -1).T
+            # rounding can put the last plane of the grid onto the upper
+            # face of the box, which is outside the periodic cell [0, L)
+            inside = np.all(self.box_grid < np.asarray(self.box, dtype=float), axis=1)
+            self.box_grid = self.box_grid[inside]
 
         # this should be done elsewhere
         topology.box = (self.box[0], self.box[1], self.box[2])
